@@ -579,25 +579,33 @@ def resample(sig, old=1, new=1, order=3, zero=0.):
   makes no difference, but for finite inputs that may be undesirable.
 
   """
-  sig = Stream(sig)
+  isig = iter(sig)
   threshold = .5 * (order + 1)
   step = old / new
   data = deque([zero] * (order + 1), maxlen=order + 1)
-  data.extend(sig.take(rint(threshold)))
+  first = list(it.islice(isig, rint(threshold)))
+  if len(first) < rint(threshold):
+    return # Input ended before the first interpolation window was filled
+  data.extend(first)
   idx = int(threshold)
-  isig = iter(sig)
   if isinstance(step, Iterable):
     step = iter(step)
     while True:
       yield lagrange(enumerate(data))(idx)
-      idx += next(step)
-      while idx > threshold:
-        data.append(next(isig))
-        idx -= 1
+      try:
+        idx += next(step)
+        while idx > threshold:
+          data.append(next(isig))
+          idx -= 1
+      except StopIteration:
+        return # Ends when the input (or the step stream) ends
   else:
     while True:
       yield lagrange(enumerate(data))(idx)
       idx += step
       while idx > threshold:
-        data.append(next(isig))
+        try:
+          data.append(next(isig))
+        except StopIteration:
+          return # Ends when the input ends
         idx -= 1
